@@ -38,6 +38,17 @@ type E struct {
 
 func (E) M() int   { return 0 }
 func (*E) PM() int { return 0 }
+
+// B promotes an exported field and an exported method through an embedded type that the importing package
+// cannot name
+type base struct{ ID int }
+
+func (base) BM() int { return 0 }
+
+type B struct {
+	base
+	L int
+}
 `
 
 // graph parameters
@@ -84,6 +95,10 @@ func (g graph) source() string {
 			b.WriteString("\text.E\n")
 		case 2:
 			b.WriteString("\t*ext.E\n")
+		case 3:
+			b.WriteString("\text.B\n")
+		case 4:
+			b.WriteString("\t*ext.B\n")
 		}
 		b.WriteString("}\n\n")
 		switch n.Meth {
@@ -99,7 +114,16 @@ func (g graph) source() string {
 	return b.String()
 }
 
-var selectors = []string{"x", "y", "m", "Y", "M", "PM"}
+var selectors = []string{"x", "y", "m", "Y", "M", "PM", "ID", "L", "BM"}
+
+const baseSelectors = 6 // ID, L, BM are only asked of graphs that embed ext.B
+
+func nsel(g graph) int {
+	if g[2].Ext >= 3 {
+		return len(selectors)
+	}
+	return baseSelectors
+}
 var forms = []string{"val", "ptr", "call", "callptr", "ref", "invoke", "invoke-call", "mexpr", "mexpr-ptr"}
 
 func queryText(form, sel string) string {
@@ -178,7 +202,7 @@ func reference(g graph, imp *fixture.Importer) (map[string]goAnswer, string) {
 	var b strings.Builder
 	b.WriteString(g.source())
 	for fi, f := range forms {
-		for si, s := range selectors {
+		for si, s := range selectors[:nsel(g)] {
 			fmt.Fprintf(&b, "func q_%d_%d() {\n\t%s\n}\n\n", fi, si, queryText(f, s))
 		}
 	}
@@ -281,6 +305,10 @@ func buildGraph(g graph, imp *fixture.Importer) (*world, gx.Outcome) {
 				fs = append(fs, types.NewField(0, pkg.Types, "E", eT, true))
 			case 2:
 				fs = append(fs, types.NewField(0, pkg.Types, "E", types.NewPointer(eT), true))
+			case 3:
+				fs = append(fs, types.NewField(0, pkg.Types, "B", w.ext.Ref("B").Type(), true))
+			case 4:
+				fs = append(fs, types.NewField(0, pkg.Types, "B", types.NewPointer(w.ext.Ref("B").Type()), true))
 			}
 			decls[i].InitType(pkg, types.NewStruct(fs, nil))
 		}
@@ -421,10 +449,13 @@ func graphs(thorough bool, yield func(g graph)) {
 							for m1 := 0; m1 < 3; m1++ {
 								for x2 := 0; x2 < 3; x2++ {
 									for y2 := 0; y2 < 2; y2++ {
-										for ext := 0; ext < 3; ext++ {
+										for ext := 0; ext < 5; ext++ {
 											for m2 := 0; m2 < 4; m2++ {
 												if m2 == 3 && x2 != 0 {
 													continue
+												}
+												if ext >= 3 && !thorough && (m0 != 0 || m1 != 0 || m2 != 0 || x1 != 0 || y2 != 0) {
+													continue // quick bound: ext.B only in graphs without methods and without x in S1 / y in S2
 												}
 												if !thorough {
 													// quick bound
@@ -457,14 +488,14 @@ func graphs(thorough bool, yield func(g graph)) {
 }
 
 func shapeOf(g graph) string {
-	e := func(v int) string { return [...]string{"-", "v", "p"}[v] }
+	e := func(v int) string { return [...]string{"-", "v", "p", "Bv", "Bp"}[v] }
 	return fmt.Sprintf("S0{x%d,S1%s,S2%s,m%d}S1{x%d,S2%s,S3%s,m%d}S2{x%d,y%d,E%s,m%d}S3{x string,y int}", g[0].X, e(g[0].Emb[0]), e(g[0].Emb[1]), g[0].Meth, g[1].X, e(g[1].Emb[0]), e(g[1].Emb[1]), g[1].Meth, g[2].X, g[2].Y, e(g[2].Ext), g[2].Meth)
 }
 
 // coarse class: per struct only what matters for the selector at hand would be ideal; we keep
 // the discrepancy kind, form, selector and the embedding skeleton (not field types).
 func classOf(g graph, form, sel, kind string) string {
-	e := func(v int) string { return [...]string{"-", "v", "p"}[v] }
+	e := func(v int) string { return [...]string{"-", "v", "p", "Bv", "Bp"}[v] }
 	skel := fmt.Sprintf("S0[%s%s]S1[%s%s]S2[E%s]", e(g[0].Emb[0]), e(g[0].Emb[1]), e(g[1].Emb[0]), e(g[1].Emb[1]), e(g[2].Ext))
 	_ = skel
 	has := func(n node) string {
@@ -506,7 +537,7 @@ func judgeGraph(g graph, imp *fixture.Importer, report func(form, sel, kind, det
 	}
 	var accepted []acc
 	for fi, f := range forms {
-		for si, s := range selectors {
+		for si, s := range selectors[:nsel(g)] {
 			ga := ref[f+"|"+s]
 			ba := w.query(fi, si)
 			count(ga.viaEmb, fmt.Sprintf("go=%v,builder=%v", ga.ok, ba.ok))
